@@ -353,6 +353,28 @@ Theorem relocated_mesh_grid_from_translates (d : RP) (idx : list nat) (g mesh : 
   relocated_mesh_grid_from idx (shift d g) (shift d mesh) = shift d (relocated_mesh_grid_from idx g mesh).
 Proof. intros HF. unfold relocated_mesh_grid_from. rewrite gather_shift by assumption. apply relocate_translates. Qed.
 
+(* ------------------------------------------------------------------ the remaining grid-valued call sites, for completeness *)
+Theorem derive_grid_all_false_spec (M : RM) : ps_ok (mps M) ->
+  derive_grid_all_false M = shift (morg M) (rel_grid (all_false (rows (mk M)) (cols (mk M))) (mps M)).
+Proof. intros Hps. unfold derive_grid_all_false, grid_via_shape. apply grid_via_mask_spec. exact Hps. Qed.
+Theorem blurring_grid_from_spec (bl : mask -> mask) (M : RM) : ps_ok (mps M) ->
+  blurring_grid_from bl M = shift (morg M) (rel_grid (bl (mk M)) (mps M)).
+Proof. intros Hps. unfold blurring_grid_from. rewrite from_mask_spec by exact Hps. reflexivity. Qed.
+Theorem padded_grid_from_spec (M : RM) kh kw : ps_ok (mps M) ->
+  padded_grid_from M kh kw = shift (morg M) (rel_grid (all_false (rows (mk M) + kh - 1) (cols (mk M) + kw - 1)) (mps M)).
+Proof. intros Hps. unfold padded_grid_from. rewrite from_mask_spec by exact Hps. reflexivity. Qed.
+Theorem subtracted_grid_spec (M : RM) (off : RP) : ps_ok (mps M) ->
+  subtracted_grid M off = shift (psub (morg M) off) (rel_grid (mk M) (mps M)) /\ subtracted_grid M off = from_mask (subtracted_mask M off).
+Proof.
+  intros Hps. assert (E : subtracted_grid M off = shift (psub (morg M) off) (rel_grid (mk M) (mps M))).
+  { unfold subtracted_grid. rewrite from_mask_spec by exact Hps. unfold shift. rewrite map_map. apply map_ext. intros p.
+    destruct p, (morg M), off; unf. apply pt_eq; ring. }
+  split; [exact E|]. rewrite E. symmetry. apply (from_mask_spec (subtracted_mask M off)). exact Hps.
+Qed.
+Theorem dataset_grid_spec (ds : @imaging ROps) : ps_ok (mps (i_data ds)) ->
+  dataset_grid ds = shift (morg (i_data ds)) (rel_grid (mk (i_data ds)) (mps (i_data ds))).
+Proof. intros Hps. apply from_mask_spec. exact Hps. Qed.
+
 (* ================================================================== statements with the hypotheses spelled out (used by Props/C12.v) *)
 Section ExportSpecM.
   Variables (M : RM) (HY : fst (mps M) <> 0) (HX : snd (mps M) <> 0).
@@ -385,6 +407,16 @@ Section ExportSpecM.
   Lemma x_sub_border_grid_translates d subs idx : Forall (fun i => (i < length (over_sampled_grid M subs))%nat) idx ->
     sub_border_grid (translate d M) subs idx = shift d (sub_border_grid M subs idx).
   Proof. apply sub_border_grid_translates, Hps. Qed.
+  Lemma x_derive_grid_all_false_spec : derive_grid_all_false M = shift (morg M) (rel_grid (all_false (rows (mk M)) (cols (mk M))) (mps M)).
+  Proof. apply derive_grid_all_false_spec, Hps. Qed.
+  Lemma x_blurring_grid_from_spec bl : blurring_grid_from bl M = shift (morg M) (rel_grid (bl (mk M)) (mps M)).
+  Proof. apply blurring_grid_from_spec, Hps. Qed.
+  Lemma x_padded_grid_from_spec kh kw :
+    padded_grid_from M kh kw = shift (morg M) (rel_grid (all_false (rows (mk M) + kh - 1) (cols (mk M) + kw - 1)) (mps M)).
+  Proof. apply padded_grid_from_spec, Hps. Qed.
+  Lemma x_subtracted_grid_spec off :
+    subtracted_grid M off = shift (psub (morg M) off) (rel_grid (mk M) (mps M)) /\ subtracted_grid M off = from_mask (subtracted_mask M off).
+  Proof. apply subtracted_grid_spec, Hps. Qed.
   Lemma x_sub_border_grid_spec subs idx : sub_border_grid M subs idx = gather zpt (shift (morg M) (rel_over (mk M) (mps M) subs)) idx.
   Proof. apply sub_border_grid_spec, Hps. Qed.
 End ExportSpecM.
@@ -413,3 +445,6 @@ Lemma x_rel_radial_a_points (cssn : RP) H W (ps r : RP) ss rm p : 0 < fst ps -> 
   exists i, (0 <= i)%Z /\ p = (fst r + IZR i * snd (rel_radial_scale H W ps r) * snd cssn, snd r + IZR i * snd (rel_radial_scale H W ps r) * fst cssn)
             /\ radius r p = IZR i * snd (rel_radial_scale H W ps r).
 Proof. intros A B. apply rel_radial_a_points. split; assumption. Qed.
+Lemma x_dataset_grid_spec (ds : @imaging ROps) : fst (mps (i_data ds)) <> 0 -> snd (mps (i_data ds)) <> 0 ->
+  dataset_grid ds = shift (morg (i_data ds)) (rel_grid (mk (i_data ds)) (mps (i_data ds))).
+Proof. intros A B. apply dataset_grid_spec. split; assumption. Qed.
